@@ -17,6 +17,11 @@ type Callback struct {
 	DurUS int    `json:"dur_us"`          // run time: 0 none, 1 = runtime.Gosched, otherwise microseconds
 	Fault string `json:"fault,omitempty"` // "", "error", "panic"
 	Panic string `json:"panic,omitempty"` // panic value kind when Fault == "panic" (see PanicKinds)
+	// FaultTimes > 0: only the first FaultTimes invocations of the routine fail (a later attempt succeeds).
+	FaultTimes int `json:"fault_times,omitempty"`
+	// Launch: IDs of work items of this module that the routine itself starts (before it returns or fails),
+	// e.g. a start routine that launches its workers and then reports an error.
+	Launch []int `json:"launch,omitempty"`
 }
 
 // PanicKinds are the panic values used by C06.
@@ -64,7 +69,7 @@ type Module struct {
 
 // Step is one action of the harness between registration and the end.
 type Step struct {
-	// Op: start | enable | disable | manage | launch | waitfinish | poststop | shutdown | sleep
+	// Op: start | enable | disable | manage | launch | waitfinish | poststop | shutdown | sleep | sigstorm (US = attempts)
 	Op   string   `json:"op"`
 	Mods []string `json:"mods,omitempty"`
 	US   int      `json:"us,omitempty"`
